@@ -18,9 +18,11 @@ CONFIG = {
              "non-trivial = the history authenticates after at least one acknowledged write; distinct = distinct history terms",
     ),
     "C02": dict(
-        drivers=[("store", "store")], run="C02", shard=60,
-        header="From Whawty Require Import Names Record Store StoreSpec.",
-        rule="one history (authenticate right/wrong password, exists, list, list-full, check, add, update, authenticate, remove, exists) per hash-file content: "
+        parts=[dict(drivers=[("store", "store")], run="C02", shard=60, header="From Whawty Require Import Names Record Store StoreSpec."),
+               dict(drivers=[("cmd/whawty-auth", "main")], run="C02a", shard=20, case_type="acase02",
+                    header="From Whawty Require Import Names Record Store StoreSpec.")],
+        rule="agent level: records of three parameter sets in use by a running agent; a SIGHUP reload retires or redefines one set; authenticate / list / list-full / update "
+             "of each user afterwards, judged under the configuration now in force; store level: one history (authenticate right/wrong password, exists, list, list-full, check, add, update, authenticate, remove, exists) per hash-file content: "
              "valid records of every configured set (LF, CRLF, no line end, aux data), systematic mutations (each field emptied/duplicated/removed/swapped, "
              "truncation at every length, separators deleted/doubled, single-byte substitutions and insertions by ':' LF CR NUL '=' '-' '_' '+' '/', std alphabet, padding, "
              "numeric edge values for time and parameter-set id, other/unknown ids and algorithms, digest prefixes/extension, empty or short salt, 64 KiB line), "
